@@ -76,6 +76,12 @@ class C13(RexDriver):
         'the tagged sampled run is given the same random.sample answers as '
         'the untagged run; a different sequence of sample calls is reported',
         'thorough repeats only the quick layers under hash seeds 1 and 2',
+        'every case and history starts from the pristine module state '
+        '(introspected, incl. mutable default arguments); histories check '
+        'the per-list clauses on the last call, a result merely different '
+        'from the fresh-state one is counted as unspecified (C14)',
+        'nothing is demanded about max_patterns / min_strings_per_pattern '
+        'being honoured: the statement only quantifies over those settings',
         'trusted base: python re as the meaning of an expression',
     ]
     prune_axes = True
